@@ -166,9 +166,10 @@ VARIABLES W,      \* the world (constant along a behaviour)
           step,   \* number of computes so far (time for liveness)
           since,  \* per holder position: step at which the current residency began
           first, last, \* per holder position: element -> step of first / last use in this residency
-          live    \* [component -> [step -> bits live]] accumulated at scope exits (element liveness)
+          live,   \* [component -> [step -> bits live]] accumulated at scope exits (element liveness)
+          pts     \* bag of iteration-space points computed so far: point -> count
 
-xvars == <<pc, dir, idx, rd, wr, macs, valid, step, since, first, last, live>>
+xvars == <<pc, dir, idx, rd, wr, macs, valid, step, since, first, last, live, pts>>
 
 N == Len(nodes)
 Tensors == DOMAIN W.proj
@@ -204,7 +205,8 @@ ExecStart(w, n) ==
    since |-> [j \in 1..n |-> 0],
    first |-> [j \in 1..n |-> <<>>],
    last |-> [j \in 1..n |-> <<>>],
-   live |-> [m \in DOMAIN w.level |-> <<>>]]
+   live |-> [m \in DOMAIN w.level |-> <<>>],
+   pts |-> <<>>]
 
 \* ---- entering a holder: allocate + fill
 EnterHolder ==
@@ -235,7 +237,7 @@ EnterHolder ==
   /\ last' = [last EXCEPT ![pc] = <<>>]
   /\ since' = [since EXCEPT ![pc] = step]
   /\ pc' = pc + 1
-  /\ UNCHANGED <<dir, idx, macs, step, live>>
+  /\ UNCHANGED <<dir, idx, macs, step, live, pts>>
 
 \* ---- entering a loop
 EnterLoop ==
@@ -243,7 +245,7 @@ EnterLoop ==
   /\ phase = "exec" /\ dir = "down" /\ IsLoop(nodes[pc])
   /\ idx' = [idx EXCEPT ![pc] = 0]
   /\ pc' = pc + 1
-  /\ UNCHANGED <<dir, rd, wr, macs, valid, step, since, first, last, live>>
+  /\ UNCHANGED <<dir, rd, wr, macs, valid, step, since, first, last, live, pts>>
 
 \* ---- the compute: one MAC at the current point
 UseElem(fm, e, s) == IF e \in DOMAIN fm THEN fm ELSE fm @@ (e :> s)
@@ -279,6 +281,8 @@ DoCompute ==
         /\ first' = Mark(first, HS, TRUE)
         /\ last' = Mark(last, HS, FALSE)
   /\ macs' = macs + 1
+  /\ LET point == [r \in DOMAIN W.bound |-> Lo(nodes, idx, pc, r)]
+     IN pts' = IF point \in DOMAIN pts THEN [pts EXCEPT ![point] = @ + 1] ELSE pts @@ (point :> 1)
   /\ step' = step + 1
   /\ dir' = "up" /\ pc' = pc - 1
   /\ UNCHANGED <<idx, live, since>>
@@ -292,7 +296,7 @@ AdvanceLoop ==
           /\ dir' = "down" /\ pc' = pc + 1
      ELSE /\ idx' = [idx EXCEPT ![pc] = 0]
           /\ dir' = "up" /\ pc' = pc - 1
-  /\ UNCHANGED <<rd, wr, macs, valid, step, since, first, last, live>>
+  /\ UNCHANGED <<rd, wr, macs, valid, step, since, first, last, live, pts>>
 
 \* add the element-liveness of one residency of holder position p to the timeline
 AddLive(lv, p) ==
@@ -330,7 +334,7 @@ ExitHolder ==
              /\ valid' = [valid EXCEPT ![src] = @ \cup tile, ![pc] = {}]
   /\ live' = IF IsMemHolder(W, nodes[pc]) THEN AddLive(live, pc) ELSE live
   /\ dir' = "up" /\ pc' = pc - 1
-  /\ UNCHANGED <<idx, macs, step, since, first, last>>
+  /\ UNCHANGED <<idx, macs, step, since, first, last, pts>>
 
 Finish ==
   /\ phase = "exec" /\ dir = "up" /\ pc = 0
